@@ -235,7 +235,9 @@ func handleExceptionSignal(vm *r.VM, blockModule *r.Module, blockDepth int, catc
 	for _, catchBlockItem := range catchBlock {
 		classID, err := MatchIDName(catchBlockItem.ExceptionClass)
 		if err != nil {
-			return nil, err
+			// a handler whose class is not a name (拦截100：) matches no exception: the
+			// exception itself must not be lost over it, nor the handlers after it skipped
+			continue
 		}
 
 		// if exception block matches exception className
